@@ -7,10 +7,16 @@ from harness import pipeline as PL, solver as S
 
 SPEC = {
     "gen": ["Rotations", "GetHkl"],
-    "modules": ["DiffcalcProofs.Props.C01"],
+    "modules": ["DiffcalcProofs.Props.C01", "DiffcalcProofs.Props.C01Sample"],
     "theorems": {"DiffcalcProofs.Props.C01": [
         "C01.getPosition_guard", "C01.getPosition_pairs_virtualAngles", "C01.guard_forward_model", "C01.composition",
-        "C01.detFromQaz_sound", "C01.threeSample_detector_sound", "C01.twoSampleAndReference_detector_sound"]},
+        "C01.detFromQaz_sound", "C01.threeSample_detector_sound", "C01.twoSampleAndReference_detector_sound"],
+        "DiffcalcProofs.Props.C01Sample": [
+        "C01.sampleSpec_of_inner", "C01.rot_solve", "C01.asin_roots", "C01.acos_roots", "C01.sampleConMuEta_sound", "C01.sampleConMuEta_sound'",
+        "C01.sampleConOmegaBisect_sound", "C01.sampleConMuBisect_sound", "C01.sampleConEtaBisect_sound", "C01.sampleConMuPhi_sound",
+        "C01.sampleConChiPhi_sound", "C01.sampleConMuChi_sound",
+        "C01.ecp_of_euler", "C01.mec_of_euler", "C01.rot_eq_of_row0_col2", "C01.sampleConMu_sound", "C01.sampleConPhi_sound", "C01.sampleFromChiEta_sound",
+        "C01.sampleConChi_sound", "C01.sampleConEta_sound", "C01.remainingSample_sound"]},
     "level": "proof",
     "rule": "all 185 implemented modes x requests built from random physical positions over (-180,180]^6 (so that solutions exist), oblique "
             "cells, rotated U, hkl- and lab-frame vectors of non-unit length, plus special-value requests (multiples of 30/45/90 deg, axis hkl) and "
